@@ -51,6 +51,7 @@ type Harness struct {
 	Covers   []string  `json:"covers"`
 	Assume   []string  `json:"assumptions"`
 	Lemmas   string    `json:"lemmas,omitempty"`
+	Threads  bool      `json:"threads,omitempty"` // schedule-dependent: counterexamples are replayed in the engine
 	Quick    TierConf  `json:"quick"`
 	Thorough *TierConf `json:"thorough,omitempty"`
 }
@@ -538,6 +539,8 @@ func classify(o *harnessOutcome, ld *loaded, known []KnownFinding, scratch strin
 		rec.replay = writeReplay(prop, o, v)
 		if noReplay {
 			rec.repro = "not-replayed"
+		} else if o.h.Threads {
+			rec.repro = replayInEngine(ld, o.h, o.tc, v)
 		} else {
 			rec.repro = replayNative(ld, rec.replay, scratch)
 		}
@@ -614,6 +617,8 @@ type replayFile struct {
 	Params   map[string]int       `json:"params,omitempty"`
 	Inputs   []interp.ReplayInput `json:"inputs"`
 	Notes    []string             `json:"notes,omitempty"`
+	Decisions []interp.Decision   `json:"decisions,omitempty"`
+	Threads  bool                 `json:"threads,omitempty"`
 }
 
 func writeReplay(prop string, o *harnessOutcome, v interp.Violation) string {
@@ -626,6 +631,10 @@ func writeReplay(prop string, o *harnessOutcome, v interp.Violation) string {
 	path := filepath.Join(dir, name+".json")
 	rf := replayFile{Property: prop, Harness: o.h.Func, Package: o.h.Pkg, AssertID: v.AssertID, Message: v.Msg,
 		Tags: v.Tags, Params: o.tc.Params, Inputs: v.Inputs, Notes: v.Trace}
+	if o.h.Threads {
+		rf.Threads = true
+		rf.Decisions = v.Decisions
+	}
 	b, _ := json.MarshalIndent(rf, "", " ")
 	os.WriteFile(path, b, 0o644)
 	return path
@@ -638,6 +647,26 @@ func sanitize(s string) string {
 		}
 		return '_'
 	}, s)
+}
+
+// replayInEngine re-executes one schedule-dependent counterexample with every decision
+// pinned (deterministic): the Go scheduler cannot be steered natively, so for
+// thread-mode harnesses the replay is the engine run of exactly that schedule.
+func replayInEngine(ld *loaded, h Harness, tc TierConf, v interp.Violation) string {
+	fn := findFunc(ld, h.Pkg, h.Func)
+	if fn == nil {
+		return "not-replayable"
+	}
+	cfg := &interp.Config{Workers: 1, Solver: "z3", TimeoutMs: 10000, Unwind: 64, MaxSteps: 200_000_000, MaxConc: 64,
+		MaxPaths: 1, InitPrefixes: initPrefixes, Forbidden: forbiddenPkgs, MapOrder: tc.MapOrder, MaxViolations: 10,
+		Params: tc.Params, Pinned: v.Decisions}
+	res := interp.Explore(ld.prog, fn, cfg, ld.pkgs[0].TypesSizes)
+	for _, rv := range res.Violations {
+		if rv.AssertID == v.AssertID {
+			return "reproduced"
+		}
+	}
+	return "not-reproduced"
 }
 
 // ---- native replay ----
@@ -774,6 +803,26 @@ func cmdReplay(args []string) int {
 	if err := json.Unmarshal(b, &rf); err != nil {
 		fmt.Fprintln(os.Stderr, err)
 		return 2
+	}
+	if rf.Threads {
+		ld, err := load()
+		if err != nil {
+			fmt.Fprintln(os.Stderr, err)
+			return 2
+		}
+		h := Harness{Pkg: rf.Package, Func: rf.Harness}
+		v := interp.Violation{AssertID: rf.AssertID, Decisions: rf.Decisions}
+		r := replayInEngine(ld, h, TierConf{Params: rf.Params}, v)
+		fmt.Println("engine replay of the recorded schedule:", r)
+		for _, n := range rf.Notes {
+			fmt.Println("  ", n)
+		}
+		if r == "reproduced" {
+			abs, _ := filepath.Abs(*file)
+			fmt.Printf("VIOLATION property=%s replay=%s\n", rf.Property, abs)
+			return 1
+		}
+		return 0
 	}
 	ov, _, err := buildOverlay(repoDir, verifDir)
 	if err != nil {
